@@ -56,5 +56,17 @@ PROPS['C10'] = dict(
   outside=['GMP-backed Multi_field classes and the cohomology Multi_field (libgmp is machine code, not encodable)', 'functional equivalence of _multiply for characteristics beyond the listed ones', 'primes above 251'],
   units=_c10)
 
+# ------------------------------------------------------------------------------------------------ C01
+_tags1 = ['end', 'insert_simplex_and_subfaces', 'insert_simplex', 'remove_maximal_simplex', 'prune_above_dimension', 'insert_batch_vertices']
+PROPS['C01'] = dict(
+  explanation='Bounded symbolic execution of the real Simplex_tree (clang IR of the headers in /repo) over *symbolic operation histories*: kind, vertex set and filtration value of each of k operations are solver variables; after every step every read interface (find, filtration, enumerations, skeleton, boundary with opposite vertices, star, cofaces of every codimension, counts per dimension, dimension, ==) is compared with an abstract-complex oracle, for six option sets. z3 decides each path; complete inside the bounds.',
+  bounds=dict(quick='n=3 labels, k=2 operations (7 kinds), values 0..2, option sets default/full_featured/fast_persistence/minimal/stable-only/linked-only; default also with labels {-7,2,40}', thorough='n=3,k=3 for every option set; n=4,k=2 default and full_featured'),
+  outside=['histories longer than k', 'more than 4 vertices', 'Simplex_data payloads', 'insert_graph (covered with C04)', 'non-monotone intermediate states (documented precondition)'],
+  assumptions=['every intermediate state is a filtered complex (closed under faces, monotone values)', 'remove_maximal_simplex only on a simplex without cofaces (documented precondition)', 'insert_simplex only when all faces are present'],
+  units=[U('hist_opt%d_n3k2' % o, 'C01_history.cpp', ['VP_N=3', 'VP_K=2', 'VP_OPT=%d' % o], weight=4, must_reach=_tags1 + ([] if o in (2,) else ['clear']) + ([] if o == 3 else ['prune_above_filtration'])) for o in range(6)]
+      + [U('hist_opt0_labels_n3k2', 'C01_history.cpp', ['VP_N=3', 'VP_K=2', 'VP_OPT=0', 'VP_LABELS=1'], weight=4, must_reach=_tags1)]
+      + [U('hist_opt%d_n3k3' % o, 'C01_history.cpp', ['VP_N=3', 'VP_K=3', 'VP_OPT=%d' % o], tiers=['thorough'], weight=30, must_reach=_tags1) for o in range(6)]
+      + [U('hist_opt%d_n4k2' % o, 'C01_history.cpp', ['VP_N=4', 'VP_K=2', 'VP_OPT=%d' % o], tiers=['thorough'], weight=30, must_reach=_tags1) for o in (0, 1)])
+
 NOT_APPLICABLE = {}
 NOTES = 'Clauses outside every claim: real thread schedules/TBB execution (engine is sequential), iostream text I/O, GMP arbitrary precision, Eigen-based Coxeter point location under general affine maps, SIMD paths of boost::unordered_flat_map (compiled with -U__SSE2__), allocation failure, inputs beyond the stated bounds.'
